@@ -1,6 +1,10 @@
 use std::collections::HashMap;
 use std::fmt;
+#[cfg(not(feature = "verif-hooks"))]
 use std::sync;
+
+#[cfg(feature = "verif-hooks")]
+use crate::verif_hooks::sync;
 
 use crate::error::Result;
 use crate::parser;
